@@ -16,6 +16,7 @@ package props
 import (
 	"fmt"
 	"math/rand"
+	"strings"
 
 	"go.sia.tech/core/consensus"
 	"go.sia.tech/core/types"
@@ -344,6 +345,10 @@ func runC07(c *fw.Ctx) {
 			if err != nil {
 				res.Note("generator produced a rejected block (%s seed %d height %d): %v", mode, seed, height, err)
 				res.Count("generator-rejected")
+				if strings.Contains(err.Error(), "storage proof") {
+					// the generator only submits honest proofs built from the real data with this package's own Merkle code
+					res.Violate(fw.Violation{Key: "c07-honest-proof-rejected", What: "an honest storage proof was rejected: " + err.Error(), Replay: rp})
+				}
 				break
 			}
 			nContractOps := 0
